@@ -58,6 +58,11 @@ EV = ['IsValid', 'Type', 'Flags', 'Timestamp', 'ServerID', 'Length', 'NextPositi
 for m in EV:
     runs['ev-' + m] = {'func': 'binlogEvent.' + m}
 runs['ev56-IsGTID'] = {'func': 'mysql56BinlogEvent.IsGTID'}
+# bounded stand-in (natively compiled contract against the real function on generated inputs): never counted as proved
+runs['tablemap-bounded'] = {'func': 'binlogEvent.TableMap', 'native_test': 'TestVCBoundedTableMap', 'cases': 4000, 'cases_thorough': 400000,
+                            'min_obligations': 6,
+                            'contract_functions': ['vc_binlogEvent_TableMap_requires', 'vc_binlogEvent_TableMap_ensures_ok', 'vc_binlogEvent_TableMap_ensures_names',
+                                                   'vc_binlogEvent_TableMap_ensures_types', 'vc_binlogEvent_TableMap_ensures_metadata', 'vc_binlogEvent_TableMap_ensures_nulls']}
 runs['evmaria-IsGTID'] = {'func': 'mariadbBinlogEvent.IsGTID'}
 runs['ev56-StripChecksum'] = {'func': 'mysql56BinlogEvent.StripChecksum'}
 runs['evmaria-StripChecksum'] = {'func': 'mariadbBinlogEvent.StripChecksum'}
@@ -233,7 +238,7 @@ props['C05'] = {
 }
 props['C06'] = {
     'level': 'proof',
-    'claim': "readBinlogEvent classifies exactly (transport error / EOF packet / ERR packet / event) and wraps the original reason; the reader publishes that reason (or the context's error on the cancel path) before closing its channels; Stream returns non-nil exactly when set-up or the parser failed; parseEvents returns non-nil on every handler / decode / lookup / unsupported-event path; Error() returns nil only for a closed channel, a cancellation or the master's EOF while the caller's context is live.",
+    'claim': "readBinlogEvent classifies exactly (transport error / EOF packet / ERR packet / event) and wraps the original reason; the reader publishes that reason (or the context's error on the cancel path) before closing its channels; Stream returns non-nil exactly when set-up or the parser failed; parseEvents returns non-nil on every handler / decode / lookup / unsupported-event path; Error() returns nil only for a closed channel, a cancellation or the master's EOF while the caller's context is live; the context Error() consults is the caller's own context of the attempt (Stream ensures s.ctx == ctx: a derived context that Stream itself cancels on return would hide every reason).",
     'note': "Known finding F5 (open): when the caller's context has been cancelled by the time Error() runs, any reason (lost connection, master error) is dropped — obligation ensures:filterLateCancel. Cross-goroutine ordering (send happens before the matching receive) is the channel's contract, assumed.",
     'technique': GEN + "; path postconditions and a channel value invariant",
     'assumptions': CONN_ASSUME,
@@ -257,14 +262,15 @@ props['C17'] = {
 }
 props['C15'] = {
     'level': 'proof',
-    'claim': "Building blocks of table-map decoding and attribution, each proved for all inputs: length-encoded integers (1/3/4/9-byte forms, so counts >= 251), per-type metadata width and byte order (big-endian for NEWDECIMAL/ENUM/SET/STRING, little-endian for VARCHAR/BIT/VAR_STRING, one byte for the blob / fractional / float / JSON / geometry types), bitmap views, 4- and 6-byte table ids; rows are converted with the mapper column of the same ordinal (name, signedness) and the table map's type of the same ordinal; a mapper column-count mismatch is an error (row conversion and parser). The table-map body parser as a whole (binlogEvent.TableMap: names, types window, metadata loop, nullability bitmap) is NOT yet discharged: its contract exists but its obligations do not close in time (see DESIGN.md), so it is not part of this check.",
-    'note': "Not covered: binlogEvent.TableMap as a whole (contract written, obligations not discharged), the parser's table cache keyed by table id (latest table map per id).",
-    'technique': GEN,
+    'claim': "Building blocks of table-map decoding and attribution, each proved for all inputs: length-encoded integers (1/3/4/9-byte forms, so counts >= 251), per-type metadata width and byte order (big-endian for NEWDECIMAL/ENUM/SET/STRING, little-endian for VARCHAR/BIT/VAR_STRING, one byte for the blob / fractional / float / JSON / geometry types), bitmap views, 4- and 6-byte table ids; rows are converted with the mapper column of the same ordinal (name, signedness) and the table map's type of the same ordinal; a mapper column-count mismatch is an error (row conversion and parser); the parser's table cache holds, for every table id, the latest table map announced for it and a mapper table obtained for that table map's names with as many columns (loop invariant part 'cache'). The table-map body parser as a whole (binlogEvent.TableMap: names, types window, metadata loop, nullability bitmap, independence of trailing optional metadata) is NOT proved: its contract (requires + five ensures clauses in replication/zz_vc_rows_verif.go) does not discharge in reasonable time, so a BOUNDED stand-in checks the natively compiled contract against the real function (obligations bounded:ok / names / types / metadata / nulls / panic): every type tuple of 0..2 columns over the 31 supported types, both table-id widths, with and without trailing bytes, plus 4000 (quick) / 400000 (thorough) seeded random well-formed bodies with 0..40 columns, names of 0..255 bytes, both encodings of the counts and 0..24 trailing bytes. These are labelled bounded and are not counted as proved.",
+    'note': "Bounded, not proved: binlogEvent.TableMap as a whole (natively compiled contract on generated bodies; bound in replication/zz_vc_tablemap_bounded_verif_test.go). Malformed table maps are outside the claim.",
+    'technique': GEN + "; bounded native evaluation of the contract for one function outside the generator's reach",
     'assumptions': ROW_ASSUME + PARSER_ASSUME[:3],
     'runs': ['rbr-readLenEncInt', 'rbr-metadataRead', 'rbr-newBitmap', 'ev-TableID',
              {'use': 'row-values', 'include': ['ensures:shape', 'ensures:columns', 'inv-.*']},
              {'use': 'row-identifies', 'include': ['ensures:shape', 'ensures:columns', 'inv-.*']},
-             {'use': 'parser', 'include': ['ensures:.*', 'inv-.*', 'safe:.*']}],
+             {'use': 'parser', 'include': ['ensures:.*', 'inv-.*', 'safe:.*']},
+             'tablemap-bounded'],
 }
 props['C16'] = {
     'level': 'proof',
